@@ -29,6 +29,18 @@ class HarnessTimeout(BaseException):
     pass
 
 
+def _pid_gone(pid) -> bool:
+    """True if the process has exited (no longer exists, or is a zombie waiting to be reaped)."""
+    if pid is None:
+        return False
+    try:
+        with open(f'/proc/{pid}/stat', 'rb') as f:
+            data = f.read().decode('ascii', 'replace')
+        return data.rsplit(')', 1)[1].split()[0] == 'Z'
+    except (OSError, IndexError):
+        return True
+
+
 class Chooser:
     """Deterministic source of choices driven by the spec's schedule (ints). choice(n) in [0, n)."""
 
@@ -248,6 +260,21 @@ class SpyRunner(Runner):
         if self.ctl.deadline is not None and time.monotonic() > self.ctl.deadline:
             raise HarnessTimeout('case deadline exceeded inside SpyRunner.wait')
 
+    def _await_exit(self, names, limit_s: float = 3.0) -> None:
+        t_end = time.monotonic() + limit_s
+        pids = {}
+        while time.monotonic() < t_end:
+            done = set()
+            for rec in vu.read_trace(self.ctl.obs_dir):
+                if rec[0] == 'S' and rec[1] in names:
+                    pids[rec[1]] = rec[2]
+                elif rec[0] in ('E', 'X', 'K') and rec[1] in names:
+                    done.add(rec[1])
+            if all(n in done for n in names) and all(_pid_gone(pids.get(n)) for n in names):
+                time.sleep(0.01)
+                return
+            time.sleep(0.005)
+
     def _release(self, names) -> None:
         for n in names:
             self.released.add(n)
@@ -326,8 +353,13 @@ class SpyRunner(Runner):
             k = 1 + ch.choice(len(blocked))
             pool = sorted(blocked)
             batch = [pool.pop(ch.choice(len(pool))) for _ in range(k)]
-            self.ctl.log('release', batch)
+            settle = ch.choice(2) == 1
+            self.ctl.log('release', batch, 'settle-outside-wait' if settle else 'poll')
             self._release(batch)
+            if settle:
+                # schedule dimension: the released workers finish and EXIT while the caller is outside wait()
+                # (as when the coordinator is busy submitting / checking the cache / updating the monitor)
+                self._await_exit(batch)
 
     def cancel(self) -> None:
         self.ctl.log('cancel')
